@@ -36,6 +36,13 @@ type Clause struct {
 	OnErr  bool
 }
 
+type Macro struct {
+	Name   string
+	Params []string
+	Expr   ast.Expr
+	Pkg    string
+}
+
 type FuncContract struct {
 	Key      string
 	Pkg      string
@@ -50,6 +57,8 @@ type FuncContract struct {
 	Line     int
 }
 
+var recvInvRe = regexp.MustCompile(`^invariant\s+\(\*?(\w+)\)\s+(\w+)\s*(\[[A-Z0-9,]*\])?\s+([A-Za-z0-9_\-.]+):\s*(.*)$`)
+var defineRe = regexp.MustCompile(`^define\s+(\w+)\(([^)]*)\):\s*(.*)$`)
 var clauseRe = regexp.MustCompile(`^(requires|ensures|lemma|assume|witness|flag)(\[[A-Z0-9,]*\])?\s+([A-Za-z0-9_\-.]+):\s*(.*)$`)
 var loopRe = regexp.MustCompile(`^loop\s+(\d+)\s+(invariant|unroll)(\[[A-Z0-9,]*\])?\s*(?:([A-Za-z0-9_\-.]+):\s*(.*))?$`)
 var paramRe = regexp.MustCompile(`^param\s+(\w+)\s+(ensures|requires)(\[[A-Z0-9,]*\])?\s+([A-Za-z0-9_\-.]+):\s*(.*)$`)
@@ -87,6 +96,7 @@ func (w *World) loadContractFile(pkg, file string) error {
 	lines := strings.Split(string(data), "\n")
 	var cur *FuncContract
 	var last *Clause
+	var pendingMacro *Macro
 	finish := func() error {
 		if last == nil {
 			return nil
@@ -94,6 +104,14 @@ func (w *World) loadContractFile(pkg, file string) error {
 		c := last
 		last = nil
 		if c.Kind == "unroll" || c.Kind == "flag" || c.Kind == "witness" {
+			return nil
+		}
+		if c.Kind == "define" {
+			e, err := parseSpecExpr(c.Text)
+			if err != nil {
+				return fmt.Errorf("%s:%d: define %s: %v", c.File, c.Line, c.Label, err)
+			}
+			pendingMacro.Expr = e
 			return nil
 		}
 		e, err := parseSpecExpr(c.Text)
@@ -120,6 +138,36 @@ func (w *World) loadContractFile(pkg, file string) error {
 		}
 		if err := finish(); err != nil {
 			return err
+		}
+		if m := recvInvRe.FindStringSubmatch(txt); m != nil {
+			if w.recvInv == nil {
+				w.recvInv = map[string][]*Clause{}
+			}
+			c := &Clause{Kind: "recvinv", Props: parseProps(m[3]), Label: m[4], Text: m[5], Param: m[2], File: file, Line: i + 1}
+			key := pkg + "." + m[1]
+			w.recvInv[key] = append(w.recvInv[key], c)
+			cur = &FuncContract{Key: pkg + ".invariant." + m[1], Pkg: pkg, Loops: map[int][]*Clause{}, Params: map[string][]*Clause{}, Flags: map[string]bool{}}
+			last = c
+			continue
+		}
+		if m := defineRe.FindStringSubmatch(txt); m != nil {
+			mc := &Macro{Name: m[1], Pkg: pkg}
+			for _, p := range strings.Split(m[2], ",") {
+				if p = strings.TrimSpace(p); p != "" {
+					mc.Params = append(mc.Params, p)
+				}
+			}
+			if w.macros == nil {
+				w.macros = map[string]*Macro{}
+			}
+			w.macros[pkg+"."+m[1]] = mc
+			// body may continue on following lines: reuse the clause mechanism
+			dummy := &FuncContract{Key: pkg + ".define." + m[1], Pkg: pkg, Loops: map[int][]*Clause{}, Params: map[string][]*Clause{}, Flags: map[string]bool{}}
+			cur = dummy
+			c := &Clause{Kind: "define", Label: m[1], Text: m[3], File: file, Line: i + 1}
+			last = c
+			pendingMacro = mc
+			continue
 		}
 		if strings.HasPrefix(txt, "func ") {
 			name := strings.TrimSpace(strings.TrimPrefix(txt, "func "))
